@@ -1,5 +1,5 @@
 (* Properties/C15.v — rejected builder calls have no effect; no dangling ids (C15) *)
-From HpoV Require Import Gen.Consts Model.Base Model.Group Model.Onto Model.Dump Model.Script Run.World Run.Ser Run.C15 Proofs.C15P Proofs.ScriptP Proofs.ClosureP Model.Dump Proofs.WalkP Proofs.WalkAllP Proofs.AllPathsP Proofs.AcyclicP Proofs.GroupP Proofs.RecordsP Proofs.TotalReloadP Proofs.BuilderTotalP Proofs.DistP Proofs.RoundTripP Proofs.AnnotP Proofs.JaxP Proofs.DecodeAnyP Model.Binary Model.Text Model.SubOnt.
+From HpoV Require Import Gen.Consts Model.Base Model.Group Model.Onto Model.Dump Model.Script Run.World Run.Ser Run.C15 Proofs.C15P Proofs.ScriptP Proofs.ClosureP Model.Dump Proofs.WalkP Proofs.WalkAllP Proofs.AllPathsP Proofs.AcyclicP Proofs.GroupP Proofs.RecordsP Proofs.TotalReloadP Proofs.BuilderTotalP Proofs.DistP Proofs.RoundTripP Proofs.AnnotP Proofs.JaxP Proofs.DecodeAnyP Model.Binary Model.Text Model.SubOnt Proofs.DecodeClosedP.
 
 Theorem C15_referentially_closed : forall d, ref_closed d = true ->
   (forall t, In t (do_terms d) ->
@@ -99,6 +99,13 @@ Theorem C15_builder_scripts_run_to_the_end : forall icf s,
   exists codes r, run_script icf s = Ok (codes, r).
 Proof. exact run_script_total. Qed.
 
+(* BINARY FILES, EVERY BYTE STRING: an ontology that from_bytes returns - for any input at all, well-formed or
+   not - has no dangling id on the record side: every term a gene / disease record lists is a term of the ontology
+   (a record that names an absent term makes the load fail) *)
+Theorem C15_decoded_records_name_stored_terms : forall icf input o, decode icf input = Ok o ->
+  forall k r d, In r (o_records k o) -> In d (a_hpos r) -> In d (ar_keys (o_arena o)).
+Proof. exact decode_records_closed. Qed.
+
 Print Assumptions C15_referentially_closed.
 Print Assumptions C15_same_observation.
 Print Assumptions C15_model_failed_add_parent_no_trace.
@@ -113,3 +120,4 @@ Print Assumptions C15_every_constructed_ontology_walk_returns.
 Print Assumptions C15_annotate_on_stored_term_succeeds.
 Print Assumptions C15_annotate_on_absent_term_is_rejected.
 Print Assumptions C15_builder_scripts_run_to_the_end.
+Print Assumptions C15_decoded_records_name_stored_terms.
